@@ -47,3 +47,76 @@ def rule_D1(prog, fixture=False):
                 res.add(key, DISCHARGED, where, what, "depends on the contents of %s" % ", ".join(p["n"] for p in arrays), func=f.name)
     res.stats["kernels"] = [f.short for f in funcs]
     return res
+
+
+# =================================================================================================
+# D2 SENTINEL-INFLUENCE: the end iterator of a strided range is a function of where the range starts  (C04, C05)
+SLICE_CLASS = re.compile(r"^dsplib::(base_slice_t|const_slice_t|slice_t)<")
+
+
+def _ret_fields(prog, f, depth=0):
+    """members of *this the returned value may depend on, member functions called on *this resolved (depth 3)"""
+    flow = Flow(f, prog, control=True)
+    deps = flow.return_deps()
+    fields = {a[1] for a in deps if a[0] == "this" and a[1] != "*"}
+    if any(a[0] == "this" and a[1] == "*" for a in deps):
+        for n in f.walk():
+            if n.k != "CXXMemberCallExpr" or not n.callee:
+                continue
+            obj = n.call_object()
+            if obj is not None and obj.strip_all().k != "CXXThisExpr":
+                continue
+            g = prog.functions.get(n.callee.get("usr"))
+            if g is None or depth >= 3 or g.usr == f.usr:
+                fields.add("*")
+            else:
+                fields |= _ret_fields(prog, g, depth + 1)
+    return fields
+
+
+def rule_D2(prog, fixture=False):
+    res = RuleResult("D2", "the iterator returned by end() of every slice class may-depends on every integer member begin() depends on "
+                           "(start and step) and on a member that carries the extent: the walk from begin() advances by the step, so a "
+                           "sentinel that is not a function of the start cannot be the position the walk arrives at")
+    ends = sorted([f for f in prog.functions.values() if f.cls and (SLICE_CLASS.match(f.cls) or (fixture and "slice" in f.cls.lower()))
+                   and f.name.rsplit("::", 1)[-1] in ("end", "cend") and not f.get("implicit")], key=lambda f: (f.cls, f.line, f.name))
+    if not ends and not fixture:
+        res.broken.append("anchor vanished: no end() member of a slice class")
+        return res
+    for f in ends:
+        cj = prog.classes.get(f.cls) or {}
+        ints = {x["name"] for x in cj.get("fields", []) if re.match(r"^(const )?(int|long|unsigned int|unsigned long|size_t)$", x["ctype"])}
+        # fields of base classes
+        for b in cj.get("bases", []):
+            bj = prog.classes.get(b.get("type")) or {}
+            ints |= {x["name"] for x in bj.get("fields", []) if re.match(r"^(const )?(int|long|unsigned int|unsigned long|size_t)$", x["ctype"])}
+        begins = [g for g in prog.functions.values() if g.cls == f.cls and g.name.rsplit("::", 1)[-1] in ("begin", "cbegin")
+                  and bool(g.get("const")) == bool(f.get("const"))]
+        if not begins:
+            begins = [g for g in prog.functions.values() if g.cls == f.cls and g.name.rsplit("::", 1)[-1] in ("begin", "cbegin")]
+        key = "D2:%s%s" % (fkey(f), ":const" if f.get("const") else "")
+        where = "%s:%d" % (prog.rel(f.file), f.line)
+        what = "%s%s" % (f.short, " const" if f.get("const") else "")
+        extra = {"props": ["C04", "C05"]}
+        if not begins:
+            res.add(key, UNMODELLED, where, what, "no begin() to compare with", func=f.name, extra=extra)
+            continue
+        start = _ret_fields(prog, begins[0]) & ints
+        mine = _ret_fields(prog, f)
+        if "*" in mine:
+            res.add(key, UNMODELLED, where, what, "calls on *this that are not resolved", func=f.name, extra=extra)
+            continue
+        missing = sorted(start - mine)
+        extent = (mine & ints) - start
+        if missing:
+            res.add(key, VIOLATED, where, what,
+                    "the returned iterator does not depend on %s (it depends on %s), but begin() does: for a step other than +-1 the "
+                    "walk from begin() steps over this sentinel and runs past the storage" % (", ".join(missing), ", ".join(sorted(mine)) or "nothing"),
+                    func=f.name, extra=extra)
+        elif not extent:
+            res.add(key, VIOLATED, where, what, "the returned iterator depends on no member that carries the extent of the slice (only on %s)"
+                    % ", ".join(sorted(mine)), func=f.name, extra=extra)
+        else:
+            res.add(key, DISCHARGED, where, what, "depends on the start/step members {%s} and on the extent {%s}" % (
+                ", ".join(sorted(start)), ", ".join(sorted(extent))), func=f.name, extra=extra)
+    return res
